@@ -51,3 +51,19 @@ Theorem C05_subslot_ledger : forall p l k (L : list (nat * nat * nat)), NoDup L 
   (length L <= sl_value (slim_of p l))%nat.
 Proof. exact subslot_limit_cells. Qed.
 Print Assumptions C05_subslot_ledger.
+
+(* ---- second granularity, teams (Model/SubSlotTeam.v): the limit check of each member sees the tentative bookings of
+   the members checked before it (TaskScenario._countTentativeBooking), a member whose limit is used up is skipped
+   when the members are booked; whatever the team, in every period every limit counts at most its value *)
+Require Import SP.Model.SubSlotTeam SP.Proofs.SubSlotTeamLimits.
+Theorem C05_subslot_teams : forall p l k,
+  (tusage p (sbooked (tschedule p)) l k <= sl_value (tlim_of p l))%nat.
+Proof. exact team_limits. Qed.
+Print Assumptions C05_subslot_teams.
+
+Theorem C05_subslot_teams_ledger : forall p l k (L : list (nat * nat * nat)), NoDup L ->
+  (forall b, In b L -> tent (fst (fst b)) (cells (tschedule p) (snd (fst b)) (snd b)) <> nil /\
+                      tcounts p l b = true /\ sl_period (tlim_of p l) (snd b) = k) ->
+  (length L <= sl_value (tlim_of p l))%nat.
+Proof. exact team_limit_cells. Qed.
+Print Assumptions C05_subslot_teams_ledger.
